@@ -250,7 +250,7 @@ def run_incoq(prop, cases, k, outdir):
         "From Coq Require Import List ZArith String.\nFrom Echo Require Import Base.Sx Glue.G%s.\n"
         "Import ListNotations.\nOpen Scope Z_scope.\nOpen Scope string_scope.\n"
         "Definition cases : list (sx * sx) := [\n  %s].\n"
-        "Definition M := Eval vm_compute in List.length (mismatches G%s.run cases).\nPrint M.\n" % (num, body, num))
+        "Definition M := Eval vm_compute in List.length (mismatches G%s.run_sx cases).\nPrint M.\n" % (num, body, num))
     rc, out = sh(["timeout", "900", "coqc", "-Q", os.path.join(COQ, "theories"), "Echo", v], cwd=d, timeout=1000)
     ok = rc == 0 and re.search(r"M = 0(%nat)?\s", out) is not None
     return ok, len(sample), out[-800:]
